@@ -5,6 +5,8 @@
    (2) urwid/canvas.py apply_text_layout: arange / attrrange / the segment loop and the
        attribute padding done by TextCanvas.__init__, for a layout given as DATA;
        a character is (encoded byte length, screen columns), both data;
+   (2b) urwid/util.py calc_trim_text / trim_text_attr_cs / rle_subseg / rle_prepend_modify: the
+       clipping TextCanvas.content(trim_left, cols) applies to a rendered row given as DATA;
    (3) urwid/canvas.py CompositeCanvas.fill_attr_apply, the attr_map of a cview applied by
        TextCanvas/SolidCanvas/BlankCanvas.content, and urwid/widget/attr_map.py AttrMap.render;
    (4) urwid/display/_raw_display_base.py _attrspec_to_escape, _on_update_palette_entry,
